@@ -5,6 +5,7 @@ import (
 	"errors"
 	"fmt"
 	"sort"
+	"sync/atomic"
 	"time"
 
 	sgbucket "github.com/couchbase/sg-bucket"
@@ -489,12 +490,16 @@ func (w *World) exec(op Op, res *Result) {
 
 // resolveMetaCas picks the CAS a *WithMeta call stamps on the document: unique, and above /
 // below every CAS seen so far.
+var metaSerial int64
+
 func (w *World) resolveMetaCas(op Op) uint64 {
 	m := w.Model
 	var v uint64
 	switch op.MetaCas {
 	case "", "above":
-		v = m.MaxCas + 0x10000
+		// unaligned (cannot coincide with a 2^16-aligned clock reading later) and different for
+		// concurrent lanes that resolve against the same model
+		v = m.MaxCas + 0x10000 + 0x3039 + 2*uint64(atomic.AddInt64(&metaSerial, 1)%1000)
 		if v < 0x10000 {
 			v = uint64(time.Now().UnixNano())
 		}
